@@ -1,6 +1,6 @@
 (* Proofs about Model/Health.v: no lost update for every schedule when Set/Clear are atomic
    read-modify-write programs (CAS loop or atomic Or/And); refutation for the load/store program. *)
-From Coq Require Import List NArith Bool Lia.
+From Coq Require Import List NArith Bool Lia Arith PeanoNat.
 From MV Require Import Lib.Interleave Model.Health.
 Import ListNotations.
 Open Scope N_scope.
@@ -208,4 +208,96 @@ Proof.
   intros ss sc Hss Hsc progs Hdis sched w0 n Hdone Hn.
   rewrite (no_lost_update ss sc Hss Hsc progs Hdis sched w0 Hdone).
   apply apply_all_untouched; auto.
+Qed.
+
+(* ---------- every thread set can finish (the theorems above are not vacuous for any program list) ---------- *)
+Lemma upd_nth_twice {A} : forall k (x y : A) l, upd_nth k y (upd_nth k x l) = upd_nth k y l.
+Proof. induction k; destruct l; cbn; auto. f_equal; auto. Qed.
+
+Lemma sched_step_at : forall ss sc ts w k t, nth_error ts k = Some t ->
+  sched_step (tstep ss sc) (ts, w) k = (upd_nth k (fst (tstep ss sc t w)) ts, snd (tstep ss sc t w)).
+Proof. intros. unfold sched_step; cbn [fst snd]. rewrite H. auto. Qed.
+
+Lemma nth_error_lt {A} : forall (l : list A) k x, nth_error l k = Some x -> (k < length l)%nat.
+Proof. intros. apply nth_error_Some. congruence. Qed.
+
+Lemma tstep_rmw : forall ss sc t w o rest, todo t = o :: rest -> shape_of ss sc o = ShRmw ->
+  tstep ss sc t w = (mkT rest PStart 0, apply_op o w).
+Proof. intros. unfold tstep. rewrite H, H0. auto. Qed.
+Lemma tstep_load : forall ss sc t w o rest, todo t = o :: rest -> ph t = PStart -> shape_of ss sc o <> ShRmw ->
+  tstep ss sc t w = (mkT (o :: rest) PLoaded w, w).
+Proof. intros. unfold tstep. rewrite H, H0. destruct (shape_of ss sc o); auto; congruence. Qed.
+Lemma tstep_store : forall ss sc t w o rest, todo t = o :: rest -> ph t = PLoaded -> shape_of ss sc o = ShLoadStore ->
+  tstep ss sc t w = (mkT rest PStart 0, apply_op o (reg t)).
+Proof. intros. unfold tstep. rewrite H, H0, H1. auto. Qed.
+Lemma tstep_cas_ok : forall ss sc t w o rest, todo t = o :: rest -> ph t = PLoaded -> shape_of ss sc o = ShCasLoop ->
+  reg t = w -> tstep ss sc t w = (mkT rest PStart 0, apply_op o (reg t)).
+Proof. intros. unfold tstep. rewrite H, H0, H1, H2, N.eqb_refl. auto. Qed.
+
+(* a thread parked before an operation finishes all its operations when it runs alone *)
+Lemma solo : forall ss sc ops ts w k t, nth_error ts k = Some t -> todo t = ops -> ph t = PStart ->
+  exists n t' w', todo t' = [] /\ run (tstep ss sc) (repeat k n) (ts, w) = (upd_nth k t' ts, w').
+Proof.
+  intros ss sc ops. induction ops as [|o rest IH]; intros ts w k t Hk Ht Hp.
+  - exists 0%nat, t, w. split; auto. cbn.
+    destruct (nth_error_split_upd k ts t Hk) as (l1 & l2 & E & _ & Hu). rewrite Hu. congruence.
+  - pose proof (nth_error_lt _ _ _ Hk) as Hlt.
+    (* after one or two steps of thread k it is parked before `rest` *)
+    assert (Hstep : exists m w1, run (tstep ss sc) (repeat k m) (ts, w) = (upd_nth k (mkT rest PStart 0) ts, w1)).
+    { set (t1 := mkT (o :: rest) PLoaded w).
+      assert (Hk1 : nth_error (upd_nth k t1 ts) k = Some t1) by (apply nth_error_upd_nth_eq; auto).
+      destruct (shape_of ss sc o) eqn:Esh.
+      - exists 2%nat, (apply_op o w). cbn [repeat]. unfold run. cbn [fold_left].
+        rewrite (sched_step_at ss sc ts w k t Hk), (tstep_load ss sc t w o rest Ht Hp) by congruence. cbn [fst snd].
+        fold t1. rewrite (sched_step_at ss sc _ w k t1 Hk1), (tstep_store ss sc t1 w o rest eq_refl eq_refl Esh).
+        cbn [fst snd reg t1]. rewrite upd_nth_twice. auto.
+      - exists 2%nat, (apply_op o w). cbn [repeat]. unfold run. cbn [fold_left].
+        rewrite (sched_step_at ss sc ts w k t Hk), (tstep_load ss sc t w o rest Ht Hp) by congruence. cbn [fst snd].
+        fold t1. rewrite (sched_step_at ss sc _ w k t1 Hk1), (tstep_cas_ok ss sc t1 w o rest eq_refl eq_refl Esh eq_refl).
+        cbn [fst snd reg t1]. rewrite upd_nth_twice. auto.
+      - exists 1%nat, (apply_op o w). cbn [repeat]. unfold run. cbn [fold_left].
+        rewrite (sched_step_at ss sc ts w k t Hk), (tstep_rmw ss sc t w o rest Ht Esh). cbn [fst snd]. auto. }
+    destruct Hstep as (m & w1 & Hm).
+    destruct (IH (upd_nth k (mkT rest PStart 0) ts) w1 k (mkT rest PStart 0)
+                (nth_error_upd_nth_eq k _ ts Hlt) eq_refl eq_refl) as (n & t' & w' & Hd & Hr).
+    exists (m + n)%nat, t', w'. split; auto.
+    rewrite repeat_app, run_app, Hm, Hr, upd_nth_twice. auto.
+Qed.
+
+Lemma seq_schedule : forall ss sc k ts w, (k <= length ts)%nat ->
+  (forall i t, nth_error ts i = Some t -> ph t = PStart) ->
+  exists sched ts' w', run (tstep ss sc) sched (ts, w) = (ts', w') /\ length ts' = length ts /\
+    (forall i t, (i < k)%nat -> nth_error ts' i = Some t -> todo t = []) /\
+    (forall i, (k <= i)%nat -> nth_error ts' i = nth_error ts i).
+Proof.
+  intros ss sc k. induction k as [|k IH]; intros ts w Hk Hps.
+  - exists [], ts, w. cbn. repeat split; auto. intros; lia.
+  - destruct (IH ts w ltac:(lia) Hps) as (s1 & ts1 & w1 & Hr1 & Hl1 & Hdone1 & Hrest1).
+    destruct (nth_error ts k) as [t|] eqn:Ek; [|apply nth_error_None in Ek; lia].
+    assert (Ek1 : nth_error ts1 k = Some t) by (rewrite Hrest1; auto).
+    destruct (solo ss sc (todo t) ts1 w1 k t Ek1 eq_refl (Hps k t Ek)) as (n & t' & w' & Hd & Hr).
+    exists (s1 ++ repeat k n), (upd_nth k t' ts1), w'. repeat split.
+    + rewrite run_app, Hr1, Hr. auto.
+    + rewrite upd_nth_length; auto.
+    + intros i x Hi Hx. destruct (Nat.eq_dec i k) as [->|Hne].
+      * rewrite nth_error_upd_nth_eq in Hx by lia. inversion Hx; subst; auto.
+      * rewrite nth_error_upd_nth_neq in Hx by auto. eapply Hdone1; eauto. lia.
+    + intros i Hi. rewrite nth_error_upd_nth_neq by lia. apply Hrest1. lia.
+Qed.
+
+Lemma all_done_nth : forall ts, (forall i t, nth_error ts i = Some t -> todo t = []) -> all_done ts = true.
+Proof.
+  induction ts as [|t ts IH]; intros H; cbn; auto.
+  unfold tdone at 1. rewrite (H 0%nat t eq_refl). cbn. apply IH. intros i x Hx. apply (H (S i) x Hx).
+Qed.
+
+Theorem complete_schedule_exists : forall ss sc progs w0, exists sched,
+  all_done (fst (hrun ss sc sched progs w0)) = true.
+Proof.
+  intros ss sc progs w0. unfold hrun.
+  destruct (seq_schedule ss sc (length (init_threads progs)) (init_threads progs) w0 (le_n _)) as (s & ts' & w' & Hr & Hl & Hd & _).
+  - intros i t Hi. unfold init_threads in Hi. rewrite nth_error_map in Hi.
+    destruct (nth_error progs i); cbn in Hi; inversion Hi; auto.
+  - exists s. rewrite Hr. cbn [fst]. apply all_done_nth. intros i t Hi. eapply Hd; eauto.
+    rewrite <- Hl. eapply nth_error_lt; eauto.
 Qed.
